@@ -250,7 +250,8 @@ Record bdata := mkbdata { bx_id : option str; bx_key : option str; bx_val : jval
 Record bset := mkbset { bs_id : option str; bs_include : option str;
                         bs_keys : list str; bs_data : list bdata }.
 Record bres := mkbres { br_id : option str; br_text : option str; br_include : option str }.
-Record bstore := mkbstore { b_id : option str; b_ress : list bres; b_sets : list bset; b_anns : list bann }.
+Record bstore := mkbstore { b_id : option str; b_include : list str (* sub-store files *);
+                            b_ress : list bres; b_sets : list bset; b_anns : list bann }.
 
 Inductive fcontent := FText (s : str) | FJson (j : json).
 Definition files := list (str * fcontent).
@@ -431,8 +432,23 @@ Definition parse_bres (j : json) : option bres :=
   end.
 
 (* ---- the store document ---- *)
+(* "@include" of a store: one file name as a string, several as an array *)
+Definition json_of_includes (l : list str) : list (str * json) :=
+  match l with
+  | [] => []
+  | [f] => [(K_include, JStr f)]
+  | _ => [(K_include, JArr (map JStr l))]
+  end.
+Definition parse_jstr (j : json) : option str := match j with JStr s => Some s | _ => None end.
+Definition parse_includes (m : list (str * json)) : option (list str) :=
+  match member K_include m with
+  | None => Some []
+  | Some (JStr f) => Some [f]
+  | Some (JArr l) => parse_list parse_jstr l
+  | Some _ => None
+  end.
 Definition json_of_bstore (s : bstore) : json :=
-  JObj ((K_type, JStr T_AnnotationStore) :: ojstr K_id (b_id s) ++
+  JObj ((K_type, JStr T_AnnotationStore) :: ojstr K_id (b_id s) ++ json_of_includes (b_include s) ++
         [(K_resources, JArr (map json_of_bres (b_ress s)));
          (K_annotationsets, JArr (map json_of_bset (b_sets s)));
          (K_annotations, JArr (map json_of_bann (b_anns s)))]).
@@ -442,11 +458,12 @@ Definition parse_bstore (j : json) : option bstore :=
       match mem_str K_type m with
       | Some t =>
           if negb (str_eqb t T_AnnotationStore) then None else
-          match (match member K_resources m with Some x => parse_arr parse_bres x | None => Some [] end),
+          match parse_includes m,
+                (match member K_resources m with Some x => parse_arr parse_bres x | None => Some [] end),
                 (match member K_annotationsets m with Some x => parse_arr parse_bset x | None => Some [] end),
                 (match member K_annotations m with Some x => parse_arr parse_bann x | None => Some [] end) with
-          | Some rs, Some ss, Some aa => Some (mkbstore (mem_str K_id m) rs ss aa)
-          | _, _, _ => None
+          | Some inc, Some rs, Some ss, Some aa => Some (mkbstore (mem_str K_id m) inc rs ss aa)
+          | _, _, _, _ => None
           end
       | None => None
       end
@@ -608,7 +625,7 @@ Definition bset_of (s : cset) : bset :=
   | None => bset_inline s
   end.
 Definition main_doc (c : cstore) : bstore :=
-  mkbstore (c_id c) (map bres_of (c_ress c)) (map bset_of (c_sets c)) (map bann_of (c_anns c)).
+  mkbstore (c_id c) [] (map bres_of (c_ress c)) (map bset_of (c_sets c)) (map bann_of (c_anns c)).
 (* the stand-off files: a resource goes to a STAM JSON file when the name ends in .json,
    to a plain text file otherwise; a dataset always to STAM JSON *)
 Definition res_file (r : cres) : files :=
@@ -978,15 +995,144 @@ Definition flush (current : files) (st : fstate) : fstate :=
 Definition rewrite_all (current : files) (disk : files) : files :=
   fold_left (fun d p => file_put d (fst p) (snd p)) current disk.
 
-(* a history of modifications and saves over any kind of state: [want] gives the stand-off
-   files the state should have *)
+(* a history of modifications and saves over any kind of state: [cur] gives the files the state
+   should have on disk; the names in [always] are written on every save (the documents of
+   sub-stores carry no changed flag) *)
 Inductive sop (X : Type) := SMod (x : X) | SSave.
 Arguments SMod {X} x.
 Arguments SSave {X}.
-Fixpoint save_run {S X} (step : S -> X -> S) (want : S -> files) (ops : list (sop X)) (s : S) (st : fstate)
-  : S * fstate :=
+Definition flag_all (names : list str) (st : fstate) : fstate := mkfs (fs_dirty st ++ names) (fs_disk st).
+Fixpoint save_run {S X} (step : S -> X -> S) (cur : S -> files) (always : S -> list str)
+         (ops : list (sop X)) (s : S) (st : fstate) : S * fstate :=
   match ops with
   | [] => (s, st)
-  | SSave :: ops' => save_run step want ops' s (flush (want s) st)
-  | SMod x :: ops' => let s' := step s x in save_run step want ops' s' (mark (want s) (want s') st)
+  | SSave :: ops' => save_run step cur always ops' s (flush (cur s) (flag_all (always s) st))
+  | SMod x :: ops' => let s' := step s x in save_run step cur always ops' s' (mark (cur s) (cur s') st)
   end.
+
+(** * Sub-stores, one level (src/substore.rs; Serialize for AnnotationStore and for
+   ResultItem<AnnotationSubStore>; the "@include" arm of AnnotationStoreVisitor)
+   Every item belongs to the root document or to one sub-store; a sub-store is written as a
+   store document of its own, which the root document includes by file name.  On loading, the
+   included documents are merged into the store first, in order, then the root's own items. *)
+Record owners := mkown { ow_subs : list (option str * str);   (* identifier and file name *)
+                         ow_res : list (option nat); ow_set : list (option nat); ow_ann : list (option nat) }.
+Definition no_owners : owners := mkown [] [] [] [].
+Definition owner_of (l : list (option nat)) (h : nat) : option nat := nth h l None.
+Definition onat_eqb (a b : option nat) : bool :=
+  match a, b with None, None => true | Some x, Some y => Nat.eqb x y | _, _ => false end.
+Definition pick {X} (own : list (option nat)) (o : option nat) (l : list (nat * X)) : list (nat * X) :=
+  filter (fun p => onat_eqb (owner_of own (fst p)) o) l.
+
+(* the part of the store one document holds *)
+Definition canon_part (s : dstore) (ow : owners) (o : option nat) (id : option str) : option cstore :=
+  match omap (fun p => canon_set (snd p)) (pick (ow_set ow) o (live (st_sets s))),
+        omap (canon_ann s) (pick (ow_ann ow) o (live (st_anns s))) with
+  | Some ss, Some aa =>
+      Some (mkcstore id (map (fun p => canon_res (snd p)) (pick (ow_res ow) o (live (st_ress s)))) ss aa)
+  | _, _ => None
+  end.
+
+Definition with_include (inc : list str) (b : bstore) : bstore :=
+  mkbstore (b_id b) inc (b_ress b) (b_sets b) (b_anns b).
+
+Definition sub_docs (s : dstore) (ow : owners) : option files :=
+  omap (fun p => match canon_part s ow (Some (fst p)) (fst (snd p)) with
+                 | Some c => Some (snd (snd p), FJson (json_of_bstore (main_doc c)))
+                 | None => None
+                 end)
+       (combine (seq 0 (length (ow_subs ow))) (ow_subs ow)).
+
+Definition encode_o (s : dstore) (ow : owners) : option (json * files) :=
+  match canon s, canon_part s ow None (st_id s), sub_docs s ow with
+  | Some call, Some croot, Some subs =>
+      Some (json_of_bstore (with_include (map snd (ow_subs ow)) (main_doc croot)), subs ++ side_files call)
+  | _, _, _ => None
+  end.
+
+(* merging one document into the store: resources, datasets, annotations, in this order *)
+Definition build_into (fs : files) (b : bstore) (s : dstore) : option dstore :=
+  match load_ress fs (st_ress s) (b_ress b), load_sets fs (st_sets s) (b_sets b) with
+  | Some rs, Some ss => load_anns (length (st_anns s)) (mkdstore (st_id s) rs ss (st_anns s)) (b_anns b)
+  | _, _ => None
+  end.
+
+Definition grow (own : list (option nat)) (len : nat) (o : option nat) : list (option nat) :=
+  own ++ repeat o (len - length own).
+Definition own_new (ow : owners) (s : dstore) (o : option nat) : owners :=
+  mkown (ow_subs ow) (grow (ow_res ow) (length (st_ress s)) o) (grow (ow_set ow) (length (st_sets s)) o)
+        (grow (ow_ann ow) (length (st_anns s)) o).
+
+Fixpoint load_subs (fs : files) (k : nat) (inc : list str) (s : dstore) (ow : owners) : option (dstore * owners) :=
+  match inc with
+  | [] => Some (s, ow)
+  | f :: inc' =>
+      match file_get fs f with
+      | Some (FJson j) =>
+          match parse_bstore j with
+          | Some b =>
+              match b_include b with
+              | _ :: _ => None                      (* deeper nesting is outside the model *)
+              | [] =>
+                  match build_into fs b s with
+                  | Some s1 =>
+                      let ow1 := own_new ow s1 (Some k) in
+                      load_subs fs (S k) inc' s1
+                                (mkown (ow_subs ow1 ++ [(b_id b, f)]) (ow_res ow1) (ow_set ow1) (ow_ann ow1))
+                  | None => None
+                  end
+              end
+          | None => None
+          end
+      | _ => None
+      end
+  end.
+
+Definition decode_o (d : json * files) : option (dstore * owners) :=
+  match parse_bstore (fst d) with
+  | Some b =>
+      match load_subs (snd d) 0 (b_include b) (mkdstore None [] [] []) no_owners with
+      | Some (s1, ow1) =>
+          match build_into (snd d) b (mkdstore (b_id b) (st_ress s1) (st_sets s1) (st_anns s1)) with
+          | Some s2 => Some (s2, own_new ow1 s2 None)
+          | None => None
+          end
+      | None => None
+      end
+  | None => None
+  end.
+
+(* the items of a sub-store come before the root's own, sub-stores in their order: the only
+   arrangement in which loading keeps the order (and with it the temporary identifiers) *)
+Definition rank (nsubs : nat) (o : option nat) : nat := match o with Some k => k | None => nsubs end.
+Fixpoint nondecreasing (l : list nat) : bool :=
+  match l with
+  | x :: ((y :: _) as l') => (x <=? y) && nondecreasing l'
+  | _ => true
+  end.
+Definition natural_order {X} (nsubs : nat) (own : list (option nat)) (l : list (option X)) : bool :=
+  nondecreasing (map (fun p => rank nsubs (owner_of own (fst p))) (live l)).
+Definition natural (s : dstore) (ow : owners) : bool :=
+  let n := length (ow_subs ow) in
+  natural_order n (ow_res ow) (st_ress s) && natural_order n (ow_set ow) (st_sets s)
+  && natural_order n (ow_ann ow) (st_anns s).
+
+(* a document only refers to items of itself or of documents loaded before it *)
+Definition leaf_closed (ow : owners) (n r : nat) (lf : dleaf) : bool :=
+  let rr x := rank n (owner_of (ow_res ow) x) <=? r in
+  let rs x := rank n (owner_of (ow_set ow) x) <=? r in
+  let ra x := rank n (owner_of (ow_ann ow) x) <=? r in
+  match lf with
+  | DText x _ _ _ => rr x
+  | DAnn a => ra a
+  | DAnnText a x _ _ _ => ra a && rr x
+  | DRes x => rr x
+  | DSet d | DKey d _ | DData d _ => rs d
+  end.
+Definition closed (s : dstore) (ow : owners) : bool :=
+  let n := length (ow_subs ow) in
+  forallb (fun p => let r := rank n (owner_of (ow_ann ow) (fst p)) in
+                    forallb (leaf_closed ow n r) (ja_leaves (snd p))
+                    && forallb (fun dx => rank n (owner_of (ow_set ow) (fst dx)) <=? r) (ja_data (snd p)))
+          (live (st_anns s)).
+Definition arranged (s : dstore) (ow : owners) : bool := natural s ow && closed s ow.
